@@ -98,7 +98,9 @@ def main():
   only = [s for s in ns.only.split(',') if s]
   pre = getattr(M, 'prepare', None)
   prep_info = pre(ns.tier) if pre else None
-  out, conds = xh.run_property(prop, module, ns.tier, only=only, jobs_n=ns.jobs or None, log=_log)
+  also = list(getattr(M, 'ALSO', []))      # further harness modules deciding parts of the same property
+  AM = [importlib.import_module(a) for a in also]
+  out, conds = xh.run_property(prop, [module] + also, ns.tier, only=only, jobs_n=ns.jobs or None, log=_log)
   run_smt_conds(module, ns.tier, only, out, prop)
   wall = time.time() - t0
 
@@ -150,16 +152,16 @@ def main():
                              'within the stated input bounds; reachability twins must be refuted and replay natively'),
       'checker_cmd': './bin/check %s --tier %s' % (prop, ns.tier),
       'trusted_base': ['crosshair-tool 0.0.110', 'z3 5.1.0', 'CPython 3.12', 'harness + oracle in props/%s.py' % prop] + list(getattr(M, 'TRUSTED', [])),
-      'functions_encoded': env.describe(getattr(M, 'FUNCTIONS', lambda: [])()) if callable(getattr(M, 'FUNCTIONS', None)) else [],
-      'bounds': getattr(M, 'BOUNDS', {}),
-      'outside_claim': getattr(M, 'OUTSIDE', []),
-      'stubs': getattr(M, 'STUBS', []),
+      'functions_encoded': env.describe([f for X in [M] + AM if callable(getattr(X, 'FUNCTIONS', None)) for f in X.FUNCTIONS()]),
+      'bounds': dict([(k, v) for X in [M] + AM for k, v in getattr(X, 'BOUNDS', {}).items()]),
+      'outside_claim': [o for X in [M] + AM for o in getattr(X, 'OUTSIDE', [])],
+      'stubs': [o for X in [M] + AM for o in getattr(X, 'STUBS', [])],
       'per_condition': out.per_cond,
       'reachability_witnesses_replayed': out.witnesses,
       'known_findings_hit': sorted(seen),
       'inconclusive': out.inconclusive[:20],
       'solver_time_s': round(out.cpu_s, 1),
-      'conditions': [{'name': c.name, 'expect': c.expect, 'engine': c.engine, 'note': c.note} for c in condmod.REGISTRY[module] if ns.tier in c.tiers],
+      'conditions': [{'name': c.name, 'expect': c.expect, 'engine': c.engine, 'note': c.note} for m_ in [module] + also for c in condmod.REGISTRY[m_] if ns.tier in c.tiers],
   }
   if prep_info:
     cov['prepare'] = prep_info
